@@ -5,13 +5,19 @@
     (strict weak order with [feqb] = "neither is less"; true in R — see [C11_laws_R] — and for
     IEEE doubles without NaN).  The two analytic clauses are over R.
 
-    Non-vacuity: [GaussFacts Phi Phiinv] cannot be instantiated here (no formalised Gaussian
-    integral is installed), so the two theorems with that premise have no closed Example; their
-    other hypotheses (beta > 0, >= 2 / >= 3 non-empty teams) are plainly satisfiable.  The
+    Non-vacuity: the premise [GaussCDF Phi Phiinv] of the two analytic theorems IS
+    instantiated, without any hypothesis, by
+    [GaussInst.GaussCDF_inst : GaussCDF GaussInst.PhiK GaussInst.PhiinvK], where
+    [GaussInst.PhiK x = 1/2 + (int_0^x exp(-t^2/2) dt) / (2 I)] is the standard normal
+    distribution function (the only fact about it that is not proved is the numeric value of
+    its normalising constant, 2 * I = sqrt (2 * pi), which these theorems do not need); the
+    premise-free corollaries [<name>_inst] are at the end of the file.  Their other
+    hypotheses (beta > 0, >= 2 / >= 3 non-empty teams) are plainly satisfiable.  The
     polymorphic theorems have concrete Examples below (nat with Nat.ltb/Nat.eqb, and the order
     laws of the R instance). *)
 From Coq Require Import List Arith Reals.
 From OSV Require Import Num Order Core Predict RInst.
+From OSV Require GaussInst.
 From OSV.Lemmas Require RankDataL C11L.
 Import ListNotations.
 Local Open Scope nat_scope.
@@ -166,7 +172,7 @@ Print Assumptions C11_ranks_R.
 (** each probability is in [0, 1]  (the proof uses only [>= 2 teams]; [beta > 0] and non-empty
     teams are the domain on which the Python code does not raise) *)
 Theorem C11_prob_range :
-  forall Phi Phiinv : R -> R, GaussFacts Phi Phiinv ->
+  forall Phi Phiinv : R -> R, GaussCDF Phi Phiinv ->
   forall (beta : R) (teams : list (list (rating R))),
     (0 < beta)%R -> 2 <= length teams -> Forall (fun t => t <> []) teams ->
     Forall (fun p => (0 <= p <= 1)%R) (@predict_rank_probs R (RNum Phi Phiinv) beta teams).
@@ -175,10 +181,28 @@ Print Assumptions C11_prob_range.
 
 (** three or more teams: the rank probabilities and the draw probability sum to 1 *)
 Theorem C11_rank_plus_draw_one :
-  forall Phi Phiinv : R -> R, GaussFacts Phi Phiinv ->
+  forall Phi Phiinv : R -> R, GaussCDF Phi Phiinv ->
   forall (beta : R) (teams : list (list (rating R))),
     (0 < beta)%R -> 3 <= length teams -> Forall (fun t => t <> []) teams ->
     (Rsum (@predict_rank_probs R (RNum Phi Phiinv) beta teams)
      + @predict_draw R (RNum Phi Phiinv) beta teams = 1)%R.
 Proof. exact C11L.C11_rank_plus_draw_one_l. Qed.
 Print Assumptions C11_rank_plus_draw_one.
+
+(** ** Hypothesis-free corollaries: the premise [GaussCDF Phi Phiinv] discharged by the concrete
+    standard normal distribution function [GaussInst.PhiK] and its inverse [GaussInst.PhiinvK]
+    ([GaussInst.GaussCDF_inst]). *)
+Theorem C11_prob_range_inst :
+  forall (beta : R) (teams : list (list (rating R))),
+    (0 < beta)%R -> 2 <= length teams -> Forall (fun t => t <> []) teams ->
+    Forall (fun p => (0 <= p <= 1)%R) (@predict_rank_probs R (RNum GaussInst.PhiK GaussInst.PhiinvK) beta teams).
+Proof. exact (C11_prob_range GaussInst.PhiK GaussInst.PhiinvK GaussInst.GaussCDF_inst). Qed.
+Print Assumptions C11_prob_range_inst.
+
+Theorem C11_rank_plus_draw_one_inst :
+  forall (beta : R) (teams : list (list (rating R))),
+    (0 < beta)%R -> 3 <= length teams -> Forall (fun t => t <> []) teams ->
+    (Rsum (@predict_rank_probs R (RNum GaussInst.PhiK GaussInst.PhiinvK) beta teams)
+     + @predict_draw R (RNum GaussInst.PhiK GaussInst.PhiinvK) beta teams = 1)%R.
+Proof. exact (C11_rank_plus_draw_one GaussInst.PhiK GaussInst.PhiinvK GaussInst.GaussCDF_inst). Qed.
+Print Assumptions C11_rank_plus_draw_one_inst.
